@@ -4,7 +4,7 @@
    [wt_fs p] the boolean.  [unique_binders p] : no binder (mu, mu~, clause parameter) re-binds an id
    that is in scope (definition parameters and binders on the path from the root) - the
    precondition "all variable bindings in each path through a program are unique" that
-   core2axcut/src/lib.rs states.  [ids_bounded p] : every variable id is <= max_id.
+   core2axcut/src/lib.rs states.  [ids_bounded p] : every variable id and the id of every definition name is <= max_id.
 
    Typing (G = bindings in scope, innermost first; lookup by NUMERIC ID, first match; a variable
    occurrence must carry the chirality and type of its binding):
@@ -237,4 +237,4 @@ with ib_stmt (s : fsstmt) : bool :=
   end.
 End Bounded.
 Definition ids_bounded (p : fsprog) : bool :=
-  forallb (fun d => ctx_le (fspmax p) (fsdctx d) && ib_stmt (fspmax p) (fsdbody d)) (fspdefs p).
+  forallb (fun d => id_le (fspmax p) (fsdname d) && ctx_le (fspmax p) (fsdctx d) && ib_stmt (fspmax p) (fsdbody d)) (fspdefs p).
